@@ -187,6 +187,9 @@ class LiteralEvaluator:
 	def on_func_call(self, node: defs.FuncCall, calls: Evaluator.Value, arguments: list[Evaluator.Value]) -> Evaluator.Value:
 		# スカラー型のキャストのみ許可
 		org_calls = node.calls.tokens
+		if len(arguments) != 1:
+			raise Errors.OperationNotAllowed(node, calls, arguments)
+
 		if org_calls == 'int':
 			if isinstance(arguments[0], str):
 				return int(arguments[0][1:-1])
